@@ -30,6 +30,18 @@ def run_part(c):
                 f.write("%s %d %d %s\n" % (m.group(1), nums[0], nums[1], bytes(nums[2:]).hex() or "-"))
                 nw += 1
     c.extra["c10_model_witnesses"] = nw
+    # corpus: the witnesses of the sites repaired by fixes/c10_negative_array_counts.patch stay in the replay set
+    cpath = os.path.join(os.path.dirname(os.path.dirname(os.path.abspath(__file__))), "corpus", "c10_null_array_witnesses.txt")
+    index = {r["name"]: i for i, r in enumerate(j["rows"])}
+    nc = 0
+    if os.path.exists(cpath):
+        with open(wpath, "a") as f:
+            for line in open(cpath):
+                p = line.split()
+                if len(p) == 4 and not line.startswith("#") and p[1] in index:
+                    f.write("%s %d %s %s\n" % (p[0], index[p[1]], p[2], p[3]))
+                    nc += 1
+    c.extra["c10_corpus_witnesses"] = nc
     m = re.search(r"= (\[[^\]]*\])\s*: list string", re.sub(r"\s+", " ", out))
     if m:
         c.extra["c10_fully_guarded_decoders"] = re.findall(r'"([^"]+)"', m.group(1))
